@@ -102,16 +102,18 @@ theorem C07_no_dup_no_drop (ooo : Bool) (prog : List Op) (done0 : List FId) (sch
 
 /-! ## views -/
 
-/-- **C07_views_wellformed.** Every view of the grammar (text, elements, tuples, `Vec`, `Suspend`, `Suspense`,
-    `Transition`, `Await`, `ErrorBoundary`, nested to any depth) renders, by the rules of `to_html_async_with_buf`, to
-    an in-order program in in-order mode and to an `OooWf` program in out-of-order mode (only `next_id; push_fallback;
-    push_async_out_of_order(Some)` triples and `ErrorBoundary` sub-builders: every resolved out-of-order list is
-    `[ooo…, sync]`, no `push_async`, every marker id preceded by its own `next_id`), and in both modes the program's
-    document is the resolved view. -/
+/-- **C07_views_wellformed.** Every view of the grammar (text, elements, tuples, `Vec`, `Suspend` on a plain future or
+    on a server resource, server resources read synchronously, `LocalResource` reads, `Suspense`, `Transition`, `Await`,
+    `ErrorBoundary`, nested to any depth) renders, by the rules of `to_html_async_with_buf`, to an in-order program in
+    in-order mode and — unless a boundary's future resolves to `None` *after* another future (`oooViewOk`: a
+    `LocalResource` awaited late; that chunk has `replace = false`) — to an `OooWf` program in out-of-order mode (only
+    `next_id; push_fallback; push_async_out_of_order(Some)` triples and `ErrorBoundary` sub-builders: every resolved
+    out-of-order list is `[ooo…, sync]`, no `push_async`, every marker id preceded by its own `next_id`); in both modes
+    the program's document is the resolved view, where a boundary that reads a `LocalResource` keeps its fallback. -/
 theorem C07_views_wellformed (v : View) :
     (inOrdOps (compile false .top v) = true ∧ docOps (compile false .top v) = viewDoc v) ∧
-    (OooWf (compile true .top v) ∧ oooDocOps (compile true .top v) = viewDoc v) :=
-  ⟨(compile_inOrd _).1 .top v (Nat.le_refl _), (compile_oooWf _).1 .top v (Nat.le_refl _)⟩
+    (oooViewOk v = true → OooWf (compile true .top v) ∧ oooDocOps (compile true .top v) = viewDoc v) :=
+  ⟨(compile_inOrd _).1 .top v (Nat.le_refl _), fun h => (compile_oooWf _).1 .top v (Nat.le_refl _) h⟩
 
 /-- **C07_marker_ids** (`next_id`, sub-builder `id.push(0)`): in an `OooWf` program the out-of-order chunks pushed
     into the top-level builder carry the pairwise distinct ids `[1], [2], …`, and the chunks a resolved out-of-order
@@ -178,11 +180,12 @@ theorem C07_out_of_order_total (prog : List Op) (hw : OooWf prog) (hc : cleanOps
 
 /-- **C07_out_of_order_views.** Every view of the grammar with clean strings, every schedule: the out-of-order
     stream, after its scripts, is the synchronous render of the fully resolved view. -/
-theorem C07_out_of_order_views (v : View) (hc : cleanView v = true) (done0 : List FId) (sched : List (List FId)) :
+theorem C07_out_of_order_views (v : View) (hc : cleanView v = true) (hok : oooViewOk v = true)
+    (done0 : List FId) (sched : List (List FId)) :
     ((startStream true done0 (compile true .top v)).polls sched).out.getLast? = some Poll.done →
     applyScripts (itemsOf ((startStream true done0 (compile true .top v)).polls sched).out) = viewDoc v := by
   intro hl
-  have hv := (C07_views_wellformed v).2
+  have hv := (C07_views_wellformed v).2 hok
   rw [← hv.2]
   exact (C07_out_of_order _ hv.1 ((compile_clean true _).1 .top v (Nat.le_refl _) hc) done0 sched).2 hl
 
@@ -391,6 +394,27 @@ example : applyScripts (itemsOf ((startStream true [] (compile true .top nestedO
     = viewDoc nestedOoo := by decide
 example : ((startStream true [] (compile true .top nestedOoo)).polls [[1, 2], [], [], []]).out.getLast? = some Poll.done := by
   decide
+
+/-- resource kinds under boundaries: a server resource read synchronously and one awaited in a `Suspend`, a boundary
+    that reads a `LocalResource` (keeps its fallback, nothing is streamed for it), a `LocalResource` awaited late
+    (in-order: the fallback arrives as an in-order chunk) -/
+def resView : View :=
+  .seq [.raw "<div>".toList,
+        .suspense "<u>f</u>".toList none [.resRead 1 (.raw "<i>v</i>".toList), .resSuspend 2 (.raw "<em>w</em>".toList)],
+        .suspense "<u>g</u>".toList none [.localRead, .raw "<p>never</p>".toList],
+        .raw "</div>".toList]
+
+example : oooViewOk resView = true ∧ cleanView resView = true ∧ viewDoc resView = "<div><i>v</i><em>w</em><u>g</u></div>".toList
+    ∧ ((startStream false [] (compile false .top resView)).polls [[], [2], [1], []]).out
+      = [Poll.item "<div>".toList, Poll.pending, Poll.item "<i>v</i><em>w</em><u>g</u></div>".toList, Poll.done]
+    ∧ ((startStream true [] (compile true .top resView)).polls [[1, 2], []]).out
+      = [Poll.item "<div><i>v</i><em>w</em><u>g</u></div>".toList, Poll.done] := by decide
+
+def lateLocal : View := .suspense "<u>g</u>".toList none [.localAwait 1, .raw "<p>never</p>".toList]
+
+example : oooViewOk lateLocal = false ∧ viewDoc lateLocal = "<u>g</u>".toList
+    ∧ ((startStream false [] (compile false .top lateLocal)).polls [[], [1], []]).out
+      = [Poll.pending, Poll.item "<u>g</u>".toList, Poll.done] := by decide
 
 end witnesses
 
